@@ -304,6 +304,37 @@ theorem RInv.run (as : List RAct) (st : RSt) (h : RInv st) : RInv (rrun st as) :
   | cons a as ih => exact ih _ (RInv.step st h a)
 
 
+/-! ## A read is one atomic action of the loop -/
+
+theorem readOne_atomic (st : RSt) (s : Nat) :
+    ∃ recs, (readOne st s).out = st.out ++ recs ∧ (∀ e ∈ recs, ∀ n, e ≠ Ev.barrier n) ∧
+      (readOne st s).reports = st.reports := by
+  unfold Splits.readOne
+  cases hc : curOf st.splits s with
+  | none => exact ⟨[], by simp, by simp, rfl⟩
+  | some c =>
+    refine ⟨[Ev.record s c], rfl, ?_, rfl⟩
+    intro e he n
+    simp only [List.mem_singleton] at he
+    subst he
+    intro h; cases h
+
+theorem read_atomic (b : List Nat) (st : RSt) :
+    ∃ recs, (b.foldl Splits.readOne st).out = st.out ++ recs ∧ (∀ e ∈ recs, ∀ n, e ≠ Ev.barrier n) ∧
+      (b.foldl Splits.readOne st).reports = st.reports := by
+  induction b generalizing st with
+  | nil => exact ⟨[], by simp, by simp, rfl⟩
+  | cons a b ih =>
+    obtain ⟨r1, h1, h2, h3⟩ := readOne_atomic st a
+    obtain ⟨r2, g1, g2, g3⟩ := ih (Splits.readOne st a)
+    refine ⟨r1 ++ r2, ?_, ?_, ?_⟩
+    · simp only [List.foldl_cons]; rw [g1, h1, List.append_assoc]
+    · intro e he n
+      rcases List.mem_append.mp he with h | h
+      · exact h2 e h n
+      · exact g2 e h n
+    · simp only [List.foldl_cons]; rw [g3, h3]
+
 /-! ## Kinesis split tracker -/
 
 theorem knownId_iff (k : List Shard) (i : Nat) : knownId k i = true ↔ ∃ sh ∈ k, sh.id = i := by
